@@ -76,9 +76,9 @@ class Aggregator(Attribute):
         """
         try:
             if asn4:
-                agg_raw = struct.pack('!I', value[0]) + netaddr.IPAddress(value[1]).packed
+                agg_raw = struct.pack('!I', value[0]) + netaddr.IPAddress(value[1], version=4).packed
             else:
-                agg_raw = struct.pack('!H', value[0]) + netaddr.IPAddress(value[1]).packed
+                agg_raw = struct.pack('!H', value[0]) + netaddr.IPAddress(value[1], version=4).packed
 
             return struct.pack('!B', cls.FLAG) + struct.pack('!B', cls.ID) \
                 + struct.pack('!B', len(agg_raw)) + agg_raw
